@@ -55,6 +55,10 @@ enum Driving {
     BreaksAt(Vec<u64>),
     /// FrameCount(1) + breakpoints at program counter values (resumed at once)
     BreaksPc(Vec<u16>),
+    /// speed mode chosen anew for every call (FrameCount(n) / Max), with breakpoints at the given
+    /// instruction counts interrupting multi-frame passes; the run is resumed in whatever mode
+    /// comes next
+    Mixed(Vec<u64>, u64),
 }
 
 #[derive(Clone, Copy, Debug)]
@@ -369,6 +373,57 @@ fn drive(scn: &Scenario, asset: AssetKind, drv: &Driving, ev: &Events, checkpoin
             }
             set_stopwatch(SwScript::Zero);
         }
+        Driving::Mixed(at, mseed) => {
+            let mut mr = Rng::new(*mseed);
+            m.dbg().calls = 0;
+            m.dbg().mode = DbgMode::AtCalls(at.clone());
+            let mut cuts: Vec<usize> = checkpoints.to_vec();
+            cuts.extend(ev.keys.iter().map(|(f, _)| *f).filter(|f| *f > 0));
+            cuts.push(total);
+            cuts.sort();
+            cuts.dedup();
+            apply(&mut m, 0);
+            let mut guard = 0u32;
+            for target in cuts {
+                while frame < target {
+                    guard += 1;
+                    if guard > 100_000 {
+                        return Err("mixed-mode driving did not make progress".into());
+                    }
+                    let left = target - frame;
+                    let n = 1 + mr.below(left.min(6) as u64) as usize;
+                    if mr.chance(1, 3) {
+                        // Max mode: n frame ends, then the stopwatch runs out
+                        let mut v: Vec<u64> = (0..n - 1).map(|i| (i as u64 * 211) % 1000).collect();
+                        v.extend_from_slice(&[5_000_000, u64::MAX / 4, 7]);
+                        set_stopwatch(SwScript::List(v));
+                        m.emu.set_speed(EmulationMode::Max);
+                        m.emu.emulate_frames(Duration::from_micros(1000)).map_err(|e| format!("emulate_frames: {}", e))?;
+                    } else {
+                        set_stopwatch(SwScript::Zero);
+                        m.emu.set_speed(EmulationMode::FrameCount(n));
+                        m.emu.emulate_frames(Duration::from_secs(100)).map_err(|e| format!("emulate_frames: {}", e))?;
+                    }
+                    let calls = m.dbg().calls;
+                    while frame < base_boundaries.len() && calls >= base_boundaries[frame] {
+                        frame += 1;
+                    }
+                    if frame > target {
+                        return Err(format!("a call asked to end at frame {} at the latest ran on into frame {}", target, frame));
+                    }
+                }
+                // exactly on the boundary (a call completed its frames, or a breakpoint hit on it)
+                if m.dbg().calls == base_boundaries[target - 1] {
+                    check(&mut m, &mut tr, target);
+                } else {
+                    return Err(format!("frame {} ended after {} instructions, the reference run needed {}", target, m.dbg().calls, base_boundaries[target - 1]));
+                }
+                if target < total {
+                    apply(&mut m, target);
+                }
+            }
+            set_stopwatch(SwScript::Zero);
+        }
         Driving::Breaks(_) | Driving::BreaksAt(_) | Driving::BreaksPc(_) => {
             m.emu.set_speed(EmulationMode::FrameCount(1));
             m.dbg().calls = 0;
@@ -493,6 +548,10 @@ fn one_tuple(ctx: &Ctx, rng: &mut Rng, st: &mut St, case: u64) {
         pcs.push(rng.u16());
     }
     alts.push(("breaks-at-pcs".into(), Driving::BreaksPc(pcs), AssetKind::Buffer, true));
+    let mut at2: Vec<u64> = (0..12).map(|_| 1 + rng.below(total as u64 * 9000)).collect();
+    at2.sort();
+    at2.dedup();
+    alts.push(("mixed-modes".into(), Driving::Mixed(at2, rng.next()), AssetKind::Buffer, false));
     alts.push(("sound-off".into(), Driving::PerFrame { drain: 1, sound: false, ay: true }, AssetKind::Buffer, false));
     alts.push(("ay-mix-off".into(), Driving::PerFrame { drain: 1, sound: true, ay: false }, AssetKind::Buffer, false));
     alts.push(("drain-every-3".into(), Driving::PerFrame { drain: 3, sound: true, ay: true }, AssetKind::Buffer, false));
@@ -528,7 +587,7 @@ fn one_tuple(ctx: &Ctx, rng: &mut Rng, st: &mut St, case: u64) {
     for (i, (name, drv, asset, audio)) in alts.iter().enumerate() {
         st.tuples += 1;
         st.kinds.insert(format!("{}|{}", scn_name.split(' ').next().unwrap_or(""), name));
-        let per_frame_capable = matches!(drv, Driving::PerFrame { .. } | Driving::Breaks(_) | Driving::BreaksAt(_) | Driving::BreaksPc(_));
+        let per_frame_capable = matches!(drv, Driving::PerFrame { .. } | Driving::Breaks(_) | Driving::BreaksAt(_) | Driving::BreaksPc(_) | Driving::Mixed(..));
         if dense && !per_frame_capable {
             continue;
         }
